@@ -114,13 +114,13 @@ PROPS = {
         "rule": ("histories of 6-30 operations (20 kinds: document mutations, filtered mutations, index create/drop, schema add/patch, version switch, explicit transactions) on a node X and a twin Y; "
                  "up to 5 restarts of X per history, biased to follow schema / index / sequence-consuming operations: clean close+reopen, or crash right after the c-th commit of the next operation. "
                  "in-memory log replay or an on-disk badger directory. distinct = distinct (operation kind before the restart, restart kind) pairs"),
-        "real_vs_stub": "real: DB.initialize / loadSchema / sequences / index and description caches, badger (in-memory via log replay, or on disk); stub: crash = store fenced at a commit boundary, context cancelled, node abandoned without Close; not run: net.Peer reload (replicators, P2P collections) and document ACP state — planned with E2",
+        "real_vs_stub": "real: DB.initialize / loadSchema / sequences / index and description caches, badger (in-memory via log replay, or on disk); stub: crash = store fenced at a commit boundary, context cancelled, node abandoned without Close; a fourth of the histories run the node with a real net.Peer on the simulated transport (E2 infrastructure): replicators and P2P collections are set and removed, DB+Peer are restarted or crashed; not run: document ACP state",
         "assumptions": ASSUME_COMMON + ["durable = batches whose Commit returned nil, in commit order"],
-        "probes": ["clean_restarts", "crashes", "crash_after_commit", "crash_before_commit", "ops_compared_after_restart"],
+        "probes": ["clean_restarts", "crashes", "crash_after_commit", "crash_before_commit", "ops_compared_after_restart", "peer_restarts", "writes_routed"],
         "quick": {"count": 12, "budget_s": 70, "workers": 16},
         "thorough": {"count": 100000, "budget_s": 1500, "workers": 16},
         "text": "After every restart and after every later operation the full logical dump (documents incl. deleted, commits, heads, index-backed reads, collection/index/schema descriptions with their identifiers, introspected types) of X must equal Y's, and every later operation must return the same result on both.",
-        "note": "Peer configuration (replicators, P2P collections) and ACP state are not yet part of the compared history. An operation whose several commits are cut in the middle by the crash ends the run without verdict (that is C05's question).",
+        "note": "Peer part: after every restart GetAllReplicators / GetAllP2PCollections must equal the configured sets, and every later write must be pushed to exactly the replicators configured for its collection (checked on never-restarted nodes too). ACP state is not part of the compared history. An operation whose several commits are cut in the middle by the crash ends the run without verdict (that is C05's question).",
     },
     "C18": {
         "engine": "E3", "level": "fault_enumeration", "design_ref": "DESIGN.md §5 C18",
